@@ -16,11 +16,31 @@ CLAIMED = {
    note="Trusted: Lean kernel + propext/Quot.sound/Classical.choice; SHAKE-256 is a parameter (collision resistance assumed); the model is hand-written and tied to /repo by the M1 stream (≈19k comparisons per quick run); text-codec round trip is checked by correspondence + oracle, not yet by a theorem.",
    technique="Lean 4 proof over executable model + differential correspondence with the Rust code",
    design="§7 C18"),
+ "C01": dict(
+   text="Lean 4 theorems in two layers. Decision logic of Presentation::verify for every presentation object and schema: acceptance implies the challenge comparison succeeded, every signature statement is matched with a proof of the signature variant that passed the disclosed-claims check and its proof-of-knowledge verifier, every predicate statement with a proof of its own variant; other variants / missing proofs are rejected. Algebra (C17): special soundness of the BBS / PS proofs of knowledge for response vectors of the checked length with the extracted witness shown to be a signature. On the real code an adversary without any signature of the statement's issuer runs the attack catalogue (foreign credential, steered transplant, free challenges, omitted proof, all 7 other variants under the signature id, observed proofs, every response-vector length, over-long forgeries with harvested pair / no signature, identity elements).",
+   note="Trusted: Lean kernel + standard axioms; forking lemma, q-SDH / PS assumption, random-oracle idealisation of merlin; pairing read through the secret key. The decision-logic model is hand-written; its disclosed-claims check is compared with the real verdict (C02 stream) and its dispatch clauses are exercised by the attack catalogue; cryptographic sub-checks are parameters of that model.",
+   technique="Lean 4 proof (decision logic + special soundness) + adversarial attack catalogue on the real verifier",
+   design="§7 C01"),
+ "C02": dict(
+   text="Lean 4 theorems characterising the repaired disclosed-claims check exactly (label set = requested ∩ schema labels; every reported claim has the schema's type; the proof's index→scalar map is exactly the encodings of the reported claims at the schema's indices), holding for every accepted presentation by the C01 decision-logic theorem. The model's check is compared with the real verdict on deviating holders that own a valid credential: the real prover is steered with the verifier's transcript for a statement that hides / adds claims while the reported map says otherwise.",
+   note="Trusted: as C01. Unique keys of the decoded maps are hypotheses (IndexMap / BTreeSet invariants). Requested labels unknown to the issuer schema are ignored by the repaired check (the repository's own tests request such labels); recorded in DESIGN.md.",
+   technique="Lean 4 proof of the decision logic + steered-prover deviation catalogue with model comparison",
+   design="§7 C02"),
  "C03": dict(
    text="Lean 4 completeness theorems for every sub-protocol as coded (BBS and PS proofs of knowledge for every revealed/hidden partition over the zip-truncating msm, commitment, ElGamal, per-byte proofs, byte-sum check, equality): the verifier's recomputation from honest responses equals what the honest prover hashed, for all witnesses, randomness and challenges. The composition is exercised on the real code: random well-formed scenarios over all statement kinds, 1..3 credentials, both suites, shuffled statement order, chained equalities, before and after BARE / JSON / CBOR round trips.",
    note="Trusted: Lean kernel + standard axioms; bulletproofs / AES-GCM completeness; 'prover and verifier append identical transcript items in identical order' is checked by running the real create/verify on generated scenarios (oracle), not proved — there is no executable Lean model of Presentation::create yet.",
    technique="Lean 4 proof of per-protocol completeness + honest-run oracle on generated statement graphs",
    design="§7 C03"),
+ "C04": dict(
+   text="Lean 4 theorem: the list of transcript items absorbed before any proof material (curve parameters, nonce, schema id, every field of every statement of all 8 kinds, issuer public data, credential-schema labels) is an injective function of the context, via prefix-injectivity of every encoder incl. LEB128 — so acceptance under two different contexts needs a hash collision on two different item lists. The model's item list is compared byte for byte with what the real verifier appends (logging merlin) for generated and mutated schemas; every single change of every schema leaf / nonce byte is tried against the real verifier.",
+   note="Trusted: Lean kernel + standard axioms; collision resistance and item framing of merlin/STROBE. Not hashed by design (and not in the property's parameter list): per-claim schema entries (type, validators, print_friendly), absent vs empty schema label/description — the model's types erase exactly those.",
+   technique="Lean 4 injectivity proof of the transcript encoder + byte-exact transcript correspondence + parameter-mutation sweep",
+   design="§7 C04"),
+ "C11": dict(
+   text="Lean 4 theorems: a changed response moves the recomputed Schnorr commitment whenever its base point is not the identity, a changed statement point moves it when the challenge is non-zero (generic over the truncating msm), instantiated for the commitment and ElGamal verifiers and turned into a rejection theorem for the BBS t-check; removal / replacement of required proofs is decided by the dispatch theorems of C01. Every leaf of honest presentations (JSON form: random / zero / identity / negation / +1 / sibling; vectors resized; proofs removed / swapped) and sampled single-byte / single-bit changes of the BARE form are run against the real decoder + verifier.",
+   note="Trusted: Lean kernel + standard axioms; a fresh transcript hitting the presented challenge is negligible (random oracle); canonical third-party decoders. Known finding: enumeration total_values above 16 bits is not covered by any hashed value.",
+   technique="Lean 4 proof (tampered leaf moves a hashed recomputation) + exhaustive single-site mutation sweep",
+   design="§7 C11"),
  "C13": dict(
    text="Lean 4 theorems: the registry state machine (ordered sets + accumulator value, as coded after the atomicity repairs) refines an abstract status map never/active/revoked for every operation and, by induction, every history; an erroring operation returns the identical state; revoked is absorbing (never re-issued, never refreshed); the published value is V0 divided by (h(y)+α) exactly once per revoked identifier in every reachable state; every handle handed out verifies. Tied to the real Issuer (both suites) by an exhaustive prefix tree over a 17-operation alphabet plus random long histories, comparing return class, ordered sets, value and the verdict of every handle ever issued after every operation.",
    note="Trusted: Lean kernel + standard axioms; pairing check read as (y+α)•C = V; serde persist/restore is the identity on the modelled state (checked on the real code by JSON round trip at every position, not proved); claim validation and signing are abstracted to 'succeeds / fails' in this model (C15/C16 cover them).",
